@@ -599,6 +599,15 @@ def fixed_shapes():
         US(U8, UNIT, V(U32, 'u8')), US(U8, A(U32, 0), FS('u8')), UE('u8', 0, [], [U8, UNIT, U32, V(U8, 'u8')], [U8, S(), U64]),
         # FlexVecs of zero-sized items (an item needs an offset slot and nothing else) and of items of MIN_SIZE 0
         FX(UNIT, 'u8'), FX(UNIT, 'u16'), FX(S(), 'u8'), FX(A(U32, 0), 'u8'), US(U8, FX(UNIT, 'u8')),
+        # a zero-sized but aligned field in front of the unsized tail of an enum variant; arrays of enums / Bools as
+        # FlexVec items (an array validated from a slice longer than itself); alignment that comes from a length type
+        # only; unsized tuple-style portable structs; 64-bit portable length types
+        UE('u8', 0, [], [U8, A(U64, 0), V(U8, 'u8')]), UE('u8', 0, [], [U8, A(U32, 0), U8, FS('u8')]),
+        FX(A(E('u8', 0, [], [U8]), 2), 'u8'), FX(A(BOOL, 3), 'u8'), FX(A(CL('u8', 3), 2), 'u16'),
+        UE('u8', 0, [], [V(U8, 'u32')]), FX(US(U8, V(U8, 'u32')), 'u8'), US(U8, FS('u32')),
+        ('struct', False, (I('le::U16'), I('le::U32'), V(U8, 'le::U16')), 'tp'),
+        ('struct', False, (I('be::U16'), BOOL, FS('le::U16')), 'tp'),
+        V(U8, 'le::U64'), FS('be::U64'), FX(V(U8, 'u8'), 'le::U64'), V(I('le::U16'), 'be::U64'),
         # FlexVecs of FlexVecs (an item that grows and shrinks in place), also as the tail of a struct
         FX(FX(U32, 'u32'), 'u32'), FX(FX(U8, 'u8'), 'u16'), FX(FX(V(U8, 'u8'), 'u8'), 'u8'), US(U16, FX(FX(U8, 'u8'), 'u8')),
         # the #[default] unit variant declared last and the only smallest one; wide tags
